@@ -102,6 +102,8 @@ pub struct Node {
     /// step in which this node's handshake packet reached it)
     pub gen_created: Vec<Duration>,
     pub gen_at_victim: Vec<bool>,
+    /// records this node signed earlier (other nodes may still hand them out)
+    pub old_records: Vec<Vec<u8>>,
 }
 
 #[derive(Clone, Debug, Default)]
@@ -311,6 +313,7 @@ impl World {
             handshakes_completed: 0,
             gen_created: Vec::new(),
             gen_at_victim: Vec::new(),
+            old_records: Vec::new(),
         });
         self.nodes.len() - 1
     }
@@ -564,7 +567,14 @@ impl World {
                 for &j in &self.nodes[i].neighbours {
                     let d = log2(&me, &self.nodes[j].sim.ident.id);
                     if distances.contains(&d) && recs.len() < 16 {
-                        recs.push(self.nodes[j].sim.ident.record_bytes());
+                        // a neighbour's record as this node has it: not always the latest one
+                        let stale = !self.nodes[j].old_records.is_empty() && self.rng.chance(1, 3);
+                        if stale {
+                            let k = self.rng.usize(self.nodes[j].old_records.len());
+                            recs.push(self.nodes[j].old_records[k].clone());
+                        } else {
+                            recs.push(self.nodes[j].sim.ident.record_bytes());
+                        }
                     }
                 }
                 if let Some((raw, pid)) = self.nodes[i].b.off_distance_record.clone() {
